@@ -363,7 +363,8 @@ where
             return Err(IVPStatus::Done);
         }
 
-        if self.time.real() + self.dt.real() >= self.end.real() {
+        let final_step = self.time.real() + self.dt.real() >= self.end.real();
+        if final_step {
             self.dt = self.end - self.time;
         }
 
@@ -391,6 +392,10 @@ where
 
         if error <= self.tolerance.real() {
             self.time += self.dt;
+            // time + (end - time) does not always round to end
+            if final_step {
+                self.time = self.end;
+            }
 
             for (ind, &avg_coeff) in self.avg_coefficients.iter().enumerate() {
                 self.state += self.half_steps.column(ind) * avg_coeff;
